@@ -84,13 +84,27 @@ func allOps() []string {
 
 type world struct {
 	d       *dhcpdrv.V4
+	cl      []client          // the clients of this world (nil: the default set `clients`)
+	notes   []string          // outcome of every control-plane call of the history (parts ctl[...])
 	offered map[string]net.IP // last offer per client
 	leased  map[string]net.IP // last ACKed address per client (nil after release/decline/expiry)
 	ended   map[string]bool   // the client HAD a binding and it ended (release/decline/expiry) with nothing since
 	byE     map[string]bool   // ... and it ended by running out on the userspace clock with no sweep since ("E")
 }
 
+// cls: the client set of this world
+func (w *world) cls() []client {
+	if w.cl != nil {
+		return w.cl
+	}
+	return clients
+}
+
 func (w *world) apply(cfg config, op string) {
+	if strings.HasPrefix(op, "ctl:") {
+		w.ctl(cfg, op)
+		return
+	}
 	if op == "E" {
 		// every lease runs out on the userspace clock; the once-a-minute sweep has NOT run yet
 		w.d.Advance(cfg.lease + time.Second)
@@ -113,7 +127,7 @@ func (w *world) apply(cfg config, op string) {
 	}
 	parts := strings.SplitN(op, ":", 2)
 	var c client
-	for _, x := range clients {
+	for _, x := range w.cls() {
 		if x.name == parts[1] {
 			c = x
 		}
@@ -130,7 +144,7 @@ func (w *world) apply(cfg config, op string) {
 			m.ReqIP = ip
 		} else {
 			m.ReqIP = net.IPv4(10, 1, 1, 77)
-			for _, o := range clients {
+			for _, o := range w.cls() {
 				if o.name != c.name && c.circuit != "" && o.circuit == c.circuit && w.leased[o.name] != nil {
 					m.ReqIP = w.leased[o.name] // the line's address
 				}
@@ -180,7 +194,7 @@ func newWorld(cfg config, loader *ebpf.Loader) *world {
 // unswept: the client, or a client on the same circuit-id, has a lease that ran out on the userspace clock and has
 // not been swept, renewed, released or declined since
 func (w *world) unswept(c client) bool {
-	for _, o := range clients {
+	for _, o := range w.cls() {
 		if (o.name == c.name || (c.circuit != "" && o.circuit == c.circuit)) && w.byE[o.name] {
 			return true
 		}
@@ -394,6 +408,33 @@ type env struct {
 	t       *testing.T
 	viaLine bool
 	unswept bool
+	// parts over another client set / alphabet (parts_test.go); zero values = the fastpath[...] parts
+	part    string   // part name prefix ("" = "fastpath")
+	cl      []client // client set (nil = clients)
+	noClock bool     // skip the native expired-clock pass
+	note    string   // appended to every violation detail of the state being evaluated
+	mark    string   // informational mark of the probe being judged (see sharesKeyPrefix)
+}
+
+func (e *env) cls() []client {
+	if e.cl != nil {
+		return e.cl
+	}
+	return clients
+}
+
+func (e *env) partName() string {
+	if e.part != "" {
+		return e.part + "[" + e.cfg.name + "]"
+	}
+	return "fastpath[" + e.cfg.name + "]"
+}
+
+// world builds a fresh server for this part's client set
+func (e *env) world(loader *ebpf.Loader) *world {
+	w := newWorld(e.cfg, loader)
+	w.cl = e.cl
+	return w
 }
 
 func (e *env) viol(kind, site, detail string, h hist, c client, p probe) {
@@ -403,7 +444,8 @@ func (e *env) viol(kind, site, detail string, h hist, c client, p probe) {
 	if e.unswept {
 		detail += unsweptMark
 	}
-	v := report.Violation{Part: "fastpath[" + e.cfg.name + "]", Kind: kind, Site: site, Detail: detail, Config: e.cfg.name,
+	detail += e.mark + e.note
+	v := report.Violation{Part: e.partName(), Kind: kind, Site: site, Detail: detail, Config: e.cfg.name,
 		Trace: append(append([]string{}, h...), fmt.Sprintf("probe %s from %s", p.name, c.name))}
 	classify(&v)
 	e.run.Violation(v)
@@ -458,30 +500,35 @@ func (e *env) evalState(h hist, ps []probe) {
 		pl, in, out []byte
 		viaLine     bool // another MAC holds a lease on this client's circuit-id: the line's cache entry is whoever was ACKed last
 		unswept     bool
+		mark        string
 	}
 	var pending []txCase
 	defer func() {
 		// reference replays run in their own bubbles (bubbles do not nest)
 		for _, x := range pending {
-			e.viaLine, e.unswept = x.viaLine, x.unswept
+			e.viaLine, e.unswept, e.mark = x.viaLine, x.unswept, x.mark
 			e.checkReply(h, nil, x.c, x.p, x.pl, x.in, x.out)
 		}
-		e.viaLine, e.unswept = false, false
+		e.viaLine, e.unswept, e.mark = false, false, ""
 	}()
 	synctest.Test(e.t, func(*testing.T) {
 		clearMaps(e.k)
 		l := e.loader()
-		w := newWorld(e.cfg, l)
+		w := e.world(l)
 		l.SetServerConfig(srvMAC, w.d.ServerIP(), 2) // what Server.Start writes
 		for _, op := range h {
 			w.apply(e.cfg, op)
 		}
 		e.states++
-		for _, c := range clients {
+		e.note = ""
+		if len(w.notes) > 0 {
+			e.note = " [control-plane calls: " + strings.Join(w.notes, "; ") + "]"
+		}
+		for _, c := range e.cls() {
 			gone := w.ended[c.name]
 			// another MAC currently holds a lease on this client's circuit-id (the line is shared)
 			lineShared := false
-			for _, o := range clients {
+			for _, o := range e.cls() {
 				if o.name != c.name && c.circuit != "" && o.circuit == c.circuit && w.leased[o.name] != nil {
 					lineShared = true
 				}
@@ -506,13 +553,17 @@ func (e *env) evalState(h hist, ps []probe) {
 				}
 				e.tx++
 				e.unswept = w.unswept(c)
+				e.mark = ""
+				if sharesKeyPrefix(w, c) {
+					e.mark = keyPrefixMark
+				}
 				if gone && !lineShared {
 					e.viol("answers-after-binding-ended", "dhcp_fastpath_prog", fmt.Sprintf("probe=%s: the client's binding was released/declined/expired in userspace, the fast path still answers", p.name), h, c, p)
-					e.unswept = false
+					e.unswept, e.mark = false, ""
 					continue
 				}
-				pending = append(pending, txCase{c, p, pl, in, out, lineShared, e.unswept})
-				e.unswept = false
+				pending = append(pending, txCase{c, p, pl, in, out, lineShared, e.unswept, e.mark})
+				e.unswept, e.mark = false, ""
 			}
 		}
 		e.expiredClock(h, w, ps)
@@ -524,7 +575,7 @@ func (e *env) evalState(h hist, ps []probe) {
 // are run again: an entry whose lease time has run out on the kernel's clock must not be answered from, whichever
 // lookup stage (VLAN, circuit-id, MAC) finds it.
 func (e *env) expiredClock(h hist, w *world, ps []probe) {
-	if e.d == nil {
+	if e.d == nil || e.noClock {
 		return
 	}
 	if err := e.d.Clear(); err != nil {
@@ -563,7 +614,7 @@ func (e *env) expiredClock(h hist, w *world, ps []probe) {
 		return
 	}
 	pi := e.d.ProgIndex("dhcp_fastpath_prog")
-	for _, c := range clients {
+	for _, c := range e.cls() {
 		for _, p := range ps {
 			if p.mtype != dhcpv4.MessageTypeDiscover && p.mtype != dhcpv4.MessageTypeRequest {
 				continue
@@ -760,7 +811,7 @@ func (e *env) checkReply(h hist, w *world, c client, p probe, payload, in, out [
 	// userspace reference: same history on a fresh userspace-only server, same DHCP message
 	var ref []dhcpdrv.Reply
 	synctest.Test(e.t, func(*testing.T) {
-		u := newWorld(e.cfg, nil)
+		u := e.world(nil)
 		for _, op := range h {
 			u.apply(e.cfg, op)
 		}
@@ -824,6 +875,8 @@ func (e *env) checkReply(h hist, w *world, c client, p probe, payload, in, out [
 	}
 }
 
+var cfgThorough = config{"/28 0dns lease1d", "10.1.1.0/28", "10.1.1.1", "", []string{}, 24 * time.Hour}
+
 func TestCheck(t *testing.T) {
 	run := report.New("C03", "exploration")
 	run.Rule = "cache states = every userspace message history over {DISCOVER,REQUEST,RELEASE,DECLINE} x {direct client m1, relayed client m2 with option 82} + lease expiry with cleanup, to the stated depth, on the real dhcp.Server writing real kernel maps; per state and client a family of request frames {DISCOVER, REQUEST selecting/renew/other-address/other-server, RELEASE, INFORM} x {msg type first, library option order} x broadcast flag x short/long options x IHL {5,6(,15)}; executed in-kernel; non-trivial = frames the fast path answered (XDP_TX)"
@@ -879,11 +932,21 @@ func TestCheck(t *testing.T) {
 	}
 	if run.Thorough() {
 		depth = 4
-		cfgs = append(cfgs, config{"/28 0dns lease1d", "10.1.1.0/28", "10.1.1.1", "", []string{}, 24 * time.Hour})
+		cfgs = append(cfgs, cfgThorough)
 	}
 	ps := probes(run.Thorough())
 	ops := allOps()
+	if *report.FlagReplay != "" {
+		if v, err := report.LoadReplay(*report.FlagReplay); err == nil && extraPart(v.Part) {
+			all := append(append([]config{}, cfgs...), cfgThorough) // a replay file may come from either tier
+			replayExtra(run, k, nd, t, all, v)
+			fin()
+		}
+	}
 	for _, cfg := range cfgs {
+		if !run.WantPart("fastpath[" + cfg.name + "]") {
+			continue
+		}
 		e := &env{run: run, k: k, cfg: cfg, t: t, d: nd}
 		var rec func(h hist)
 		rec = func(h hist) {
@@ -911,6 +974,7 @@ func TestCheck(t *testing.T) {
 			States: e.states, Transitions: e.evals, Outcomes: e.tx, Exhaustive: true, Note: fmt.Sprintf("%d fast-path replies compared with the userspace server", e.tx)})
 		run.AddEvals(e.evals, e.tx)
 	}
+	runExtra(run, k, nd, t, cfgs)
 	runSched(run, k)
 	run.Sample(map[string]any{"history": []string{"D:m1", "R:m1", "D:m2"}, "probes": func() []string {
 		var n []string
